@@ -302,6 +302,7 @@ static void tuples(void) {
         }
     }
     if (THOROUGH) {
+        core = nI;      /* triples over the whole interesting set */
         for (i = 0; i < core; i++) for (j = 0; j < core; j++) for (k = 0; k < core; k++, idx++) {
             UChar s[24]; int l;
             if (idx % NW != WK) continue;
